@@ -264,6 +264,9 @@ class ATP_Store:
                     self._update_state()
                     return True
 
+                # The pool grew by the conversion: a debt below must cover only what is still missing
+                balance = self.atp
+
             # Try to use debt
             if allow_debt and self._debt < self.max_debt:
                 deficit = cost - balance
